@@ -204,16 +204,22 @@ class Version(_BaseVersion):
             raise InvalidVersion(f"Invalid version: {version!r}")
 
         # Store the parsed out pieces of the version
-        self._version = _Version(
-            epoch=int(match.group("epoch")) if match.group("epoch") else 0,
-            release=tuple(int(i) for i in match.group("release").split(".")),
-            pre=_parse_letter_version(match.group("pre_l"), match.group("pre_n")),
-            post=_parse_letter_version(
-                match.group("post_l"), match.group("post_n1") or match.group("post_n2")
-            ),
-            dev=_parse_letter_version(match.group("dev_l"), match.group("dev_n")),
-            local=_parse_local_version(match.group("local")),
-        )
+        try:
+            self._version = _Version(
+                epoch=int(match.group("epoch")) if match.group("epoch") else 0,
+                release=tuple(int(i) for i in match.group("release").split(".")),
+                pre=_parse_letter_version(match.group("pre_l"), match.group("pre_n")),
+                post=_parse_letter_version(
+                    match.group("post_l"),
+                    match.group("post_n1") or match.group("post_n2"),
+                ),
+                dev=_parse_letter_version(match.group("dev_l"), match.group("dev_n")),
+                local=_parse_local_version(match.group("local")),
+            )
+        except ValueError as exc:
+            # int() refuses digit strings beyond the interpreter's limit for
+            # integer string conversion (sys.get_int_max_str_digits()).
+            raise InvalidVersion(f"Invalid version: {version!r}") from exc
 
         # Generate a key which will be used for sorting
         self._key = _cmpkey(
